@@ -766,6 +766,19 @@ impl Stringify for Value {
                     stringifier.write_token("}}", None, &end_location)?;
                     Ok(())
                 }
+                if let Expression::LitStr { value, .. } = &**expression {
+                    if !value.is_empty()
+                        && value
+                            .trim_matches(crate::parse::is_template_whitespace)
+                            .is_empty()
+                    {
+                        // printed as static text, a blank string would be dropped by the parser
+                        stringifier.write_token("{{", None, &double_brace_location.0)?;
+                        expression.stringify_write(stringifier)?;
+                        stringifier.write_token("}}", None, &double_brace_location.1)?;
+                        return Ok(());
+                    }
+                }
                 split_expression(
                     &expression,
                     stringifier,
